@@ -268,8 +268,9 @@ Definition fbig_to_float (P : enc_params) (B : Z) (m : mode) (s e : Z) : result 
   if B =? 2 then Ok (fbig2_to_float P m s e)
   else rbind (convert_base_to2 B (MB P + 1) m s e) (and_then_checked P).
 
-(** ---- rational/src/third_party/dashu_float.rs: Repr::to_float (as is: the quotient is rounded
-    to an integer, then convert_int rounds that integer to the precision) ---- *)
+(** ---- rational/src/third_party/dashu_float.rs: Repr::to_float (after the repair of F37: the
+    quotient has at least p digits; exactly p are kept, the digits below them and the remainder of
+    the division are rounded in one step; convert_int then only strips trailing zeros) ---- *)
 Definition rat_to_fbig (B p : Z) (m : mode) (N D : Z) : approx :=
   if N =? 0 then AExact 0 0 else
   let num_digits := dlen B N - 1 in
@@ -278,17 +279,22 @@ Definition rat_to_fbig (B p : Z) (m : mode) (N D : Z) : approx :=
   let n' := N * B ^ shift in
   let q := Z.quot n' D in
   let r := Z.rem n' D in
-  let first := if r =? 0 then None else Some (round_ratio m q r D) in
-  let n := match first with None => q | Some a => q + adj a end in
+  let extra := dlen B q - p in
+  let '(hi, rem, den) :=
+    if extra =? 0 then (q, r, D)
+    else (Z.quot q (B ^ extra), Z.rem q (B ^ extra) * D + r, D * B ^ extra) in
+  let first := if rem =? 0 then None else Some (round_ratio m hi rem den) in
+  let n := match first with None => hi | Some a => hi + adj a end in
   let '(s0, e0) := normalize B n 0 in
   match repr_round B p m s0 e0, first with
-  | AExact s e, None => AExact s (e - shift)
-  | AExact s e, Some a => AInexact s (e - shift) a
-  | AInexact s e f, _ => AInexact s (e - shift) f
+  | AExact s e, None => AExact s (e - (shift - extra))
+  | AExact s e, Some a => AInexact s (e - (shift - extra)) a
+  | AInexact s e f, _ => AInexact s (e - (shift - extra)) f
   end.
 
-(** the class of the open finding: the first rounding was inexact and left more than p digits,
-    so a second rounding follows *)
+(** a second rounding would happen if the integer handed to convert_int still had more than p
+    digits after stripping trailing zeros (it never does after the repair; kept as a run-time
+    cross-check of the model) *)
 Definition rat_to_fbig_twice (B p : Z) (m : mode) (N D : Z) : bool :=
   if N =? 0 then false else
   let num_digits := dlen B N - 1 in
@@ -297,7 +303,11 @@ Definition rat_to_fbig_twice (B p : Z) (m : mode) (N D : Z) : bool :=
   let n' := N * B ^ shift in
   let q := Z.quot n' D in
   let r := Z.rem n' D in
-  negb (r =? 0) && (dlen B (fst (normalize B (q + adj (round_ratio m q r D)) 0)) >? p).
+  let extra := dlen B q - p in
+  let '(hi, rem, den) :=
+    if extra =? 0 then (q, r, D)
+    else (Z.quot q (B ^ extra), Z.rem q (B ^ extra) * D + r, D * B ^ extra) in
+  negb (rem =? 0) && (dlen B (fst (normalize B (hi + adj (round_ratio m hi rem den)) 0)) >? p).
 
 (** the correctly rounded p-digit float of N/D: significand at the exponent of the p-th digit *)
 Definition rat_to_fbig_spec (B p : Z) (m : mode) (N D : Z) : Z * Z * comparison :=
